@@ -440,6 +440,11 @@ func (s *state) formatRecursive(err error, isOutermost, withDetail, withDepth bo
 				s.elideShortChildren(numChildren)
 			}
 		}
+		// Like in the default case below: the message of a multi-cause
+		// error already accounts for its causes, always elide them.
+		if len(causes) > 0 {
+			s.elideShortChildren(numChildren)
+		}
 
 	default:
 		// Handle the special case overrides for context.Canceled,
